@@ -308,6 +308,15 @@ class KeyedSet(Generic[ItemType, KeyType], MutableSet, KeyedBase):  # pylint: di
 
     # MutableSet implementation
 
+    def _from_iterable(self, iterable):  # pylint: disable=arguments-differ
+        # Used by the `Set` mixin operators (`|`, `&`, `-`, `^`) to build their
+        # result; it must identify items in the same way as this set does.
+        return type(self)(
+            iterable,
+            key=self._key,
+            enforce_item_equivalence=self.enforce_item_equivalence,
+        )
+
     def __contains__(self, item_or_key):
         # Check whether item_or_key exists as a key
         try:
